@@ -292,9 +292,10 @@ class TabControl(HtmlControl):
     )
 
   def _tab_button(self, tab: Tab, i: int) -> Html:
-    def _js_str(s: str) -> str:
+    def _js_str(s: Optional[str]) -> str:
       # The ids are written into single-quoted JavaScript string literals.
-      return Html.escape(s, javascript_str=True).replace("'", "\\'")
+      # NOTE: a non-interactive control has no element id.
+      return Html.escape(str(s), javascript_str=True).replace("'", "\\'")
 
     return Html.element(
         'button',
